@@ -682,7 +682,13 @@ func (s *Server) complete(ctx context.Context, req *CompleteRequest) (*CompleteR
 	if s.opts.CompletionHandler == nil {
 		return nil, jsonrpc2.ErrMethodNotFound
 	}
-	return s.opts.CompletionHandler(ctx, req)
+	res, err := s.opts.CompletionHandler(ctx, req)
+	if err == nil && res != nil && res.Completion.Values == nil {
+		res2 := *res
+		res2.Completion.Values = []string{} // avoid "null"
+		res = &res2
+	}
+	return res, err
 }
 
 // Map from notification name to a function creating its corresponding Params.
